@@ -20,6 +20,7 @@ type Session struct {
 	Cfg             Cfg
 	Store           *RecStore
 	Cache           mast.NodeCache
+	sharedCfg       *mast.RemoteConfig // see fam_conc.go
 	Trees           map[int]*mast.Mast
 	Roots           map[int]*mast.Root
 	Oracle          map[int]map[uint64]uint64
@@ -703,6 +704,11 @@ func (s *Session) Exec(line string) (obs string, viol string) {
 		// every loaded tree gets a handle of its own onto the session's store
 		lc := s.remoteConfig()
 		lc.StoreImmutablePartsWith = &storeHandle{s.Store}
+		if s.sharedCfg != nil {
+			// one *RemoteConfig shared by every goroutine of the case (the usual way to share a store
+			// and a cache): LoadMast may only read it
+			lc = s.sharedCfg
+		}
 		m, err := r.LoadMast(s.ctx, lc)
 		if err != nil {
 			return errClass(err), "loading a root returned by MakeRoot failed: " + err.Error()
